@@ -38,6 +38,6 @@ For each mutation k in 1..2 create the directory {d}/m<k>/ containing:
 - patch.diff : `git diff` of the worktree for this mutation alone (applies with `git apply` to a pristine checkout of HEAD);
 - demo_test.go : a small Go test, using only the library's public API, that FAILS with the mutation and PASSES without it; its header comment must contain exactly these two lines: `// Placement: copy this file to <path relative to the checkout>/<name>_test.go` and `// Run: go test -count=1 -run <TestName> ./<pkg>` (add -race on the Run line if the demo needs the race detector);
 - meta.json : {{"property": "{pid}", "summary": "<one line: what was changed>", "needs": "<what it needs in order to manifest>", "files": ["<changed files>"], "verified": "<the exact commands you ran and what you observed>"}}
-Verify all of that yourself: apply each patch alone on the pristine worktree, run the full suite once, run the demo with and without the patch. Reset the worktree between mutations (`git -C {d}/wt checkout -- . && git -C {d}/wt clean -fd`). When finished, remove the worktree (`git -C /repo worktree remove --force {d}/wt`). Final message: for each mutation one line with what it changes and what it needs to manifest."""
+Verify all of that yourself: apply each patch alone on the pristine worktree, run the full suite once, run the demo with and without the patch. Reset the worktree between mutations (`git -C {d}/wt checkout -- . && git -C {d}/wt clean -fd`). NEVER use `git stash` (the stash is shared by every worktree of /repo and other people are working in theirs: entries cross over); keep work in progress as diff files in your own directory instead. When finished, remove the worktree (`git -C /repo worktree remove --force {d}/wt`). Final message: for each mutation one line with what it changes and what it needs to manifest."""
     open(f'{base}/prompt_{pid}.txt', 'w').write(txt)
     print(pid, len(tried), 'tried;', len(txt), 'chars')
